@@ -157,6 +157,24 @@ fn run(op: &str, args: &[String]) -> String {
                 Err(e) => format!("{{\"outcome\":\"err\",\"error\":{}}}", jstr(&format!("{}", e.inner))),
             }
         }
+        "filter_parts_match" => {
+            // args: <filter tags> <event tags>; tags separated by ';', strings by ','; "@" is a tag with no strings
+            use pocket_types::{Kind, OwnedEvent, OwnedFilter, OwnedTags, Pubkey, Sig, Time};
+            let parse = |a: &str| -> Vec<Vec<String>> {
+                a.split(';').filter(|t| !t.is_empty()).map(|t| if t == "@" { vec![] } else { t.split(',').map(|x| x.to_string()).collect() }).collect()
+            };
+            let ftags = OwnedTags::new(&parse(&args[0])).unwrap();
+            let etags = OwnedTags::new(&parse(&args[1])).unwrap();
+            let ev = OwnedEvent::new(Id::from_bytes([1u8; 32]), Kind::from_u16(1), Pubkey::from_bytes([2u8; 32]), Sig::from_bytes([0u8; 64]),
+                &etags, Time::from_u64(100), b"").unwrap();
+            match OwnedFilter::new(&[], &[], &[], &ftags, None, None, None) {
+                Ok(f) => match f.event_matches(&ev) {
+                    Ok(b) => format!("{{\"outcome\":\"ok\",\"matches\":{},\"filter_tags\":{}}}", b, f.tags().map(|t| tags_json(t)).unwrap_or_else(|_| "null".into())),
+                    Err(e) => format!("{{\"outcome\":\"match-err\",\"error\":{}}}", jstr(&format!("{}", e.inner))),
+                },
+                Err(e) => format!("{{\"outcome\":\"err\",\"error\":{}}}", jstr(&format!("{}", e.inner))),
+            }
+        }
         "db_script" => {
             let s = if let Some(p) = args[0].strip_prefix('@') { std::fs::read_to_string(p).unwrap() } else { args[0].clone() };
             db_script(&s)
